@@ -612,5 +612,7 @@ def run(ctx, res):
     schema = rule_schema(ctx, res)
     if schema:
         rule_agree(ctx, res, schema)
+    from . import c09eval
+    c09eval.report(ctx, res)
     cli.rule_wiring(ctx, res, 'luafmt', only_options={'indentwidth',
                                                       'overwrite'})
